@@ -194,6 +194,7 @@ struct RunResult {
     std::string sample;      // short human-readable description of the case
     std::map<std::string, double> stats; // numeric outputs merged by the driver (sums etc.)
     std::vector<std::string> known;      // known-finding keys matched in this run
+    std::string explicit_plan;           // on violation: the plan with the schedule made explicit (sw lines), for minimisation/replay
 };
 
 } // namespace sim
